@@ -13,7 +13,7 @@ META = {
     "engine": "storage",
     "technique": "TLA+ spec SessionOverlay (base index + fact log + current-facts overlay with the merge iterator, refining committed-map-overlaid-with-log) model-checked with TLC; one TLC behaviour per transition replayed into ClientState::session / Session::action / Session::receive over memory linear storage with a harness policy (spec->impl conformance)",
     "text": "TLC explores every committed fact state reachable by <=2 on-graph actions and every interleaving of session actions and received commands (programs: insert/delete of one of two fact keys, optionally followed by a check that fails when a given fact is visible) over two sessions, checking in every state that exact queries (overlay, then base) and the transcribed sorted-merge prefix iterator equal the committed map overlaid with the session's log for every prefix, and on every transition that a failed operation changes nothing and that no session operation changes the committed state or another session. Each behaviour is replayed into real sessions; the views are read through a probing policy action (query for every key, query_prefix for every prefix of the key universe, ascending order) and compared with the overlay map; after a failed action/receive all views and the message sink must be as before the call; graph heads, head-set stamp and fact cache must be unchanged by every session operation.",
-    "note": "Bounds: 2 fact keys (one a prefix of the other, empty component), <=2 committed actions, 2 sessions (only session 1 originates actions in the quick tier), <=2 log entries per session, <=2 published commands. Thorough: both sessions act, programs of <=2 updates. The harness policy fails a rule with PolicyError::Rejected after its writes, before or after publishing the command (seeded).",
+    "note": "Bounds: 2 fact keys (one a prefix of the other, empty component), <=2 committed actions, 2 sessions (only session 1 originates actions in the quick tier), <=2 log entries per session, <=2 published commands. Thorough: both sessions originate actions. Simulation: 26 fact keys, <=6 commits, logs of <=14 entries, 50 steps, a few two-update programs. The harness policy fails a rule with PolicyError::Rejected after its writes, before or after publishing the command (seeded).",
 }
 
 ACTIONS = ["CommitAny", "NewSession", "ActionAny", "ReceiveAny"]
@@ -42,6 +42,17 @@ def run(ctx):
     if len([x for x in res if isinstance(x.get("i"), int) and x["i"] >= 0]) < len(items):
         raise verif.ToolError("engine returned %d results for %d behaviours" % (len(res), len(items)))
     ctx.absorb(res)
+    # seeded simulation over the whole key universe (merge iterator with many keys / tombstones)
+    nsim = 12 if not ctx.thorough else 240
+    rs = ctx.tlc("MC_SessionOverlay", "Sim_SessionOverlay.cfg", simulate=max(1, nsim // 4), depth=51,
+                 workers=4, timeout=1500, tag="sim")
+    sim = storage_util.dedupe_by_prefix(rs.replays)
+    if len(sim) < nsim // 2:
+        raise verif.ToolError("simulation produced only %d behaviours" % len(sim))
+    res = ctx.run_engine(vh, "session", sim, opts={"prop": "C14"}, tag="session-sim")
+    if len([x for x in res if isinstance(x.get("i"), int) and x["i"] >= 0]) < len(sim):
+        raise verif.ToolError("engine returned %d results for %d simulation behaviours" % (len(res), len(sim)))
+    ctx.absorb(res)
     # binding self-tests: perturbed overlay expectation / flipped outcome must be rejected
     good = next(b for b in beh if b["e"]["sv"] and any(b["e"]["sv"]))
     bad = json.loads(json.dumps(good))
@@ -61,6 +72,8 @@ def run(ctx):
         "one_behaviour_per_transition": len(beh),
         "behaviours_replayed": len(items),
         "failing_operations": nfail,
+        "simulation_behaviours": len(sim),
+        "simulation_steps_per_behaviour": 50,
         "receives": nrecv,
         "selftest": "perturbed overlay expectation and flipped outcome rejected by the engine",
     })
